@@ -69,6 +69,10 @@ fn cursors(n: usize, margin: i64) -> Vec<Cursor> {
     for x in 0..=(n as i64 + margin) {
         v.push(Cursor::EndAligned(-(x as isize)));
     }
+    // end-aligned cursors above zero (as a JSON document may carry them): they denote positions beyond the end
+    for x in 1..=(margin.max(1) + 1) {
+        v.push(Cursor::EndAligned(x as isize));
+    }
     v
 }
 
@@ -414,17 +418,86 @@ pub fn run(opts: &Opts) -> Report {
     }
     complex_relative(&mut rep, &mut rng, if opts.thorough() { 4000 } else { 600 });
     extreme_cursors(&mut rep);
+    offset_edges(&mut rep);
     rep.extra.insert("max_text_len".into(), json!(maxlen));
     rep
 }
 
 /// cursors at the limits of the integer types, against a resource and relative to annotations that do not begin at 0
 /// (one and two levels deep): every such offset denotes no range of the text and must be refused — not wrap around, not panic
+/// the conversions around offsets at their edges: a selection that lies before, after or in another resource than its
+/// container has no offset relative to it (None, not a panic, not a number); an inverted relative offset has no absolute
+/// form; an offset relative to an annotation that has no single text to be relative to is refused, not dropped
+fn offset_edges(rep: &mut Report) {
+    let mut store = new_store();
+    let _ = store.add_resource(TextResourceBuilder::new().with_id("r").with_text("Hello w\u{f6}rld again"));
+    let _ = store.add_resource(TextResourceBuilder::new().with_id("r2").with_text("another text here"));
+    let n = 17usize;
+    let ctx = |what: String| vec![what];
+    // relative_offset / relative_begin / relative_end over all pairs of ranges, same and other resource
+    for (sb, se) in [(0usize, 1usize), (0, 5), (2, 9), (6, 11), (11, 11), (12, 17), (0, 17), (5, 5)] {
+        for (cb, ce) in [(2usize, 5usize), (6, 11), (0, 17), (11, 11), (0, 0), (12, 17)] {
+            for other in [false, true] {
+                let got = guarded(std::panic::AssertUnwindSafe(|| {
+                    let r = store.resource("r").unwrap();
+                    let r2 = store.resource(if other { "r2" } else { "r" }).unwrap();
+                    let sel = r.textselection(&Offset::simple(sb, se)).unwrap();
+                    let cont = r2.textselection(&Offset::simple(cb, ce)).unwrap();
+                    (sel.relative_offset(&cont, OffsetMode::BeginBegin).map(|o| cursor_s_pair(&o)), sel.relative_offset(&cont, OffsetMode::EndEnd).map(|o| cursor_s_pair(&o)), sel.relative_begin(&cont), sel.relative_end(&cont))
+                }));
+                let embedded = !other && cb <= sb && se <= ce;
+                let want = if embedded { (Some(format!("b{}:b{}", sb - cb, se - cb)), Some(format!("e{}:e{}", sb as i64 - ce as i64, se as i64 - ce as i64).replace("e0", "e0")), Some(sb - cb), Some(se - cb)) } else { (None, None, None, None) };
+                rep.count("edge:relative-offset");
+                rep.case(Some(&format!("edge rel {} {} {} {} {}", sb, se, cb, ce, other)));
+                let what = format!("selection {}-{} of r relative to {}-{} of {}", sb, se, cb, ce, if other { "r2 (another resource)" } else { "r" });
+                match got {
+                    Err(m) => rep.fail("panic", "edge/relative-offset/panics", ctx(what), &format!("{:?}", want), &m),
+                    Ok(g) => {
+                        let g = (g.0, g.1.map(|x| x.replace("e-0", "e0")), g.2, g.3);
+                        if g != want { rep.fail("oracle", &format!("edge/relative-offset/{}", if other { "other-resource" } else if embedded { "embedded" } else { "not-embedded" }), ctx(what), &format!("{:?}", want), &format!("{:?}", g)); }
+                    }
+                }
+            }
+        }
+    }
+    let _ = n;
+    // absolute_offset of an inverted relative offset
+    for (b, e) in [(3usize, 1usize), (5, 0), (2, 1)] {
+        let got = guarded(std::panic::AssertUnwindSafe(|| { let r = store.resource("r").unwrap(); let sel = r.textselection(&Offset::simple(6, 11)).unwrap(); sel.absolute_offset(&Offset::simple(b, e)).map(|o| cursor_s_pair(&o)).map_err(|_| ()) }));
+        rep.count("edge:absolute-offset-inverted");
+        match got {
+            Err(m) => rep.fail("panic", "edge/absolute-offset/panics", ctx(format!("relative offset {}..{} inside 6-11", b, e)), "an error", &m),
+            Ok(Ok(o)) => rep.fail("oracle", "edge/absolute-offset/inverted-accepted", ctx(format!("relative offset {}..{} inside 6-11", b, e)), "an error (end before begin)", &o),
+            Ok(Err(())) => {}
+        }
+    }
+    // an offset relative to an annotation without a single text
+    let _ = store.annotate(AnnotationBuilder::new().with_id("onres").with_target(SelectorBuilder::resourceselector("r")));
+    let _ = store.annotate(AnnotationBuilder::new().with_id("two").with_target(SelectorBuilder::compositeselector([SelectorBuilder::textselector("r", Offset::simple(0, 2)), SelectorBuilder::textselector("r", Offset::simple(6, 8))])));
+    let _ = store.annotate(AnnotationBuilder::new().with_id("onann").with_target(SelectorBuilder::annotationselector("onres", None)));
+    for (i, target) in ["onres", "two", "onann"].iter().enumerate() {
+        for (b, e) in [(0usize, 1usize), (100, 200)] {
+            let got = guarded(std::panic::AssertUnwindSafe(|| store.annotate(AnnotationBuilder::new().with_id(format!("rel{}{}", i, b)).with_target(SelectorBuilder::annotationselector(*target, Some(Offset::simple(b, e))))).map(|h| { let a = store.annotation(h).unwrap(); format!("accepted: text {:?}, offset kept: {}", a.text_join("|"), matches!(a.as_ref().target(), Selector::AnnotationSelector(_, Some(_)))) }).map_err(|_| ())));
+            rep.count("edge:offset-on-annotation-without-single-text");
+            let what = format!("AnnotationSelector({:?}, offset {}..{}) where {:?} has {}", target, b, e, target, ["a resource selector", "two text selections", "an annotation selector on an annotation without text"][i]);
+            match got {
+                Err(m) => rep.fail("panic", "edge/offset-without-text/panics", ctx(what), "an error", &m),
+                Ok(Ok(d)) => rep.fail("oracle", "edge/offset-without-text/accepted", ctx(what), "an error: there is no single text the offset could be relative to", &d),
+                Ok(Err(())) => {}
+            }
+        }
+    }
+}
+
+fn cursor_s_pair(o: &Offset) -> String {
+    let c = |c: &Cursor| match c { Cursor::BeginAligned(x) => format!("b{}", x), Cursor::EndAligned(x) => format!("e{}", x) };
+    format!("{}:{}", c(&o.begin), c(&o.end))
+}
+
 fn extreme_cursors(rep: &mut Report) {
     let text: String = (0..12).map(|i| ALPHABET[i % ALPHABET.len()]).collect();
     let huge_b: Vec<usize> = vec![usize::MAX, usize::MAX - 1, usize::MAX - 3, usize::MAX - 6, usize::MAX - 12, usize::MAX / 2 + 1, (isize::MAX as usize), 1usize << 32];
-    // (positive end-aligned cursors are ill-formed input — documented as "0 or lower" — and not part of this stream)
-    let huge_e: Vec<isize> = vec![isize::MIN, isize::MIN + 1, isize::MIN + 6, -(1isize << 40)];
+    let huge_e: Vec<isize> = vec![isize::MIN, isize::MIN + 1, isize::MIN + 6, -(1isize << 40), 1, 7, isize::MAX];
     let normal = [Cursor::BeginAligned(0), Cursor::BeginAligned(2), Cursor::EndAligned(0), Cursor::EndAligned(-1)];
     let mut extremes: Vec<Cursor> = huge_b.iter().map(|x| Cursor::BeginAligned(*x)).collect();
     extremes.extend(huge_e.iter().map(|x| Cursor::EndAligned(*x)));
